@@ -34,7 +34,7 @@ def run_alphabet(rep, alphabet, depth, d):
     nv.write_ndjson(inp, [{"id": i, "prelude": meta["prelude"], "modules": meta["modules"], "probes": meta["probes"],
                            "steps": [s["text"] for s in c["steps"]]} for i, c in enumerate(cases)])
     nv.harness("nv-session", ["session-run", "--cases", inp, "--out", out])
-    results = nv.read_ndjson_text(open(out).read())
+    results = nv.read_ndjson_text(open(out, encoding="utf-8").read())
     failing = 0
     for c, r in zip(cases, results):
         rep.add("evaluations", len(c["steps"]))
